@@ -3,6 +3,7 @@ from registry_common import COMMON_ASSUME
 ENTRY = dict(
         title="No received frame stalls the pipeline; controller requests are always answered",
         design_ref="DESIGN.md section 6 / C09",
+        prop_modules=["C09", "C09Producer"],
         technique="Lean 4 pool machine (read queue, unfinished counter, n symmetric consumers, per-frame class and 'handling raises' input bit) "
                   "with a conservation invariant proved for all frame sequences and all consumer schedules + correspondence with a real "
                   "AsyncProtocol on a fake transport under a virtual loop + Lean judge C09.spec on what the implementation showed",
@@ -10,8 +11,8 @@ ENTRY = dict(
             "Proof: for EVERY number of consumers and EVERY schedule of arrivals / takes / finishes (any mix of valid frames, controller "
             "requests and raising frames, in particular more raising frames than consumers) `C09.conservation` shows no consumer dies, the "
             "unfinished counter equals queued + in-hand frames and nothing is lost or duplicated; at quiescence `delivered_exactly_once` / "
-            "`delivered_count` (each non-raising frame delivered exactly once, raising ones never), `requests_answered` + `reply_matches` "
-            "(one reply per request: matching kind, addressed to the sender, device-available carrying the configured network info), "
+            "`delivered_count` (each non-raising frame delivered exactly once, raising ones never), `requests_answered` + `reply_bytes_*` "
+            "(one reply per request, as the exact frame bytes: kind, recipient = sender, Net.encode of the configured network info / Version.encode), "
             "`balanced_at_quiescence` (unfinished = 0, Queue.join returns); `never_stalls`: from every reachable state the consumers alone "
             "reach quiescence; `holds`: the machine's observation satisfies C09.spec; `uncontained_counterexample`: the same machine "
             "without try/except/finally is wedged by three raising frames. The machine is tied to protocol.py / devices by running frame "
@@ -22,16 +23,32 @@ ENTRY = dict(
                    "asyncio.Queue accounting as documented; the machine <-> code tie is differential.",
         clauses={
             "every non-raising frame delivered exactly once, raising frames dropped, all schedules": "theorem (delivered_exactly_once, delivered_count)",
-            "each controller request answered once, matching kind, to its sender, device-available with configured network info": "theorem (requests_answered, reply_matches) for requests whose handling does not raise + correspondence (payload bytes on the transport equal the wire layout of the configured network info)",
-            "unfinished = 0 at quiescence / shutdown can complete": "theorem (balanced_at_quiescence) + correspondence (shutdown() completes under the virtual loop)",
+            "each controller request answered once, matching kind, to its sender, device-available with configured network info":
+                "theorem (requests_answered; reply_bytes_check_device / reply_bytes_program_version: the reply FRAME is <176|192, sender, 86, 48, 5, Net.encode cfg | Version.encode defaults 86>, "
+                "its bytes C02.envelope/net_layout/version_layout; request_never_raises for every buildable configuration via C03.net_encode_ok/version_encode_ok; "
+                "unbuildable_reply_contained: a reply that cannot be built (D9) is contained and leaves the request unanswered; holds has NO hypothesis about raising frames; "
+                "the statement side (Spec/C09 describe/demanded) judges a reply with the network DECODER, tied to the encoder by C03.net_roundtrip) "
+                "+ correspondence (reply frames on the transport compared byte for byte with the model's)",
+            "unfinished = 0 at quiescence / shutdown can complete": "theorem (balanced_at_quiescence for the read queue; C09Producer.write_balance and shutdown_can_complete for the write queue: both counters balanced after any frame sequence and any write faults; frames still queued for writing with no producer are finding F1/C12, not claimed) + correspondence (shutdown() completes under the virtual loop)",
             "no consumer dies, including more raising frames than consumers": "theorem (no_consumer_dies, never_stalls)",
             "the model distinguishes contained from uncontained consumers": "theorem (uncontained_counterexample)",
             "which payloads make handling raise": "correspondence (input bit from the implementation's decoder; C05)",
             "frame codes 64/48/192/176": "table (codes, generated frame table)",
+            "producer stage: the loop stops only on a read/write loss or a foreign disconnect, never on a protocol error, whatever the noise":
+                "theorem (C09Producer.producer_continues, stops_only_on_loss, producer_survives_noise: composed with the reader model's readAll) + correspondence (real frame_producer fed one read() at a time)",
+            "producer stage: frames put on the read queue = delivered outcomes of the reads made, in order, each once":
+                "theorem (C09Producer.enqueued_exactly_delivered, wellformed_sequence_enqueued: composed with C04.delivered_exactly) + correspondence",
+            "producer stage: at most one queued frame written per cycle, FIFO":
+                "theorem (C09Producer.one_write_per_cycle) + correspondence (frames on the fake transport per quiescent point)",
+            "producer stage: write queue unfinished counter = queued frames at every cycle boundary, also after a failed write (fix 7e0d3a8)":
+                "theorem (C09Producer.write_balance; unbalanced_counterexample for the code before the fix) + correspondence (OSError / WRITER_TIMEOUT scripted on drain())",
+            "producer stage: connection_lost scheduled exactly once per loss, a loop that ended does nothing more":
+                "theorem (C09Producer.loss_scheduled_once) + correspondence (on_connection_lost callback count)",
         },
         assumptions=COMMON_ASSUME + [
             "handling a frame is atomic between taking it and acknowledging it except while a device entry is created (C10); the machine allows any interleaving",
-            "the producer stage is represented by arrivals only; frames the reader rejects or ignores never arrive (C01/C04/C14)",
+            "in the pool machine the producer stage is represented by arrivals only; the producer loop itself is Model/Producer.lean, whose read outcomes are those of the reader model (C01/C04/C14) plus timeout / other exception",
+            "producer machine: frames put on the write queue by other tasks enter at cycle boundaries (between the loop test and the previous read's completion); real time between them is not modelled",
         ],
         timeout={"quick": 300, "thorough": 1800},
     )
